@@ -14,7 +14,7 @@ def flushedOf (l : List (ObuHeader × Bytes)) : List Bytes :=
 theorem flushedOf_cons (hb : ObuHeader × Bytes) (l : List (ObuHeader × Bytes)) :
     flushedOf (hb :: l) = (if dropped hb.1 then [] else [obuBytes hb.1 hb.2]) ++ flushedOf l := by
   unfold flushedOf
-  by_cases h : dropped hb.1 = true <;> simp [List.filter_cons, h]
+  by_cases h : dropped hb.1 = true <;> simp [h]
 
 theorem foldl_spec (mtu : Nat) (hm : 2 ≤ mtu) (hs : mtu ≤ 65535) (l : List (ObuHeader × Bytes))
     (hwf : ∀ hb ∈ l, hdrWF hb.1 = true) (s : PSt) (us : List OUnit) (done : List Bytes)
